@@ -88,6 +88,10 @@ def coinsEqual (a b : List Coin) : Bool :=
 def beToU64 (bz : List Nat) : Nat := if bz.isEmpty then 0 else (bz.foldl (fun acc b => acc * 256 + b % 256) 0) % 2^64
 def u64ToBe (n : Nat) : List Nat := (List.range 8).map fun i => (n / 256^(7 - i)) % 256
 
+/-- `bz[lo:hi]` of a byte slice (capacity = length for the values the translated code builds) -/
+def sliceBytes (bz : List Nat) (lo hi : Int) : Option (List Nat) :=
+  if 0 ≤ lo ∧ lo ≤ hi ∧ hi ≤ (bz.length : Int) then some ((bz.drop lo.toNat).take (hi - lo).toNat) else none
+
 /-- an effect on something the translator does not interpret: the callee's path and its integer arguments -/
 structure Effect where
   name : String
